@@ -1051,6 +1051,92 @@ pub fn check_c06(ix: &Ix<'_>, v: &mut Vec<Violation>) {
     }
 }
 
+/// C06 over a long history (family C06L; linear time): identifiers on the wire are non-zero and never carried by
+/// two exchanges at once, every send completes with the acknowledgement of its own identifier, the correct
+/// peer's connection is never ended - all the way through the wrap of the 16-bit identifier counter.
+pub fn check_c06_long(ix: &Ix<'_>, v: &mut Vec<Violation>) {
+    use std::collections::{HashMap, HashSet};
+    let role = ix.role();
+    if let Some(p) = &ix.out.panic {
+        let loc = p.rsplit(" @ ").next().unwrap_or("").to_string();
+        viol(v, "C06", format!("C06/panic/{role}/{loc}"), format!("panic on a connection with a correct peer: {p}"), ix.last_seq);
+        return;
+    }
+    if ix.out.budget_hit {
+        return;
+    }
+    let mut outstanding: HashSet<u16> = HashSet::new();
+    let mut pid_of_op: HashMap<(usize, usize), u16> = HashMap::new();
+    let mut max_pid = 0u16;
+    let mut wrapped = false;
+    for e in &ix.out.hist {
+        match &e.ev {
+            Ev::EpPacket { conn: 0, pkt, .. } => {
+                let pid = match pkt {
+                    Pkt::Publish(p) if p.qos > 0 => p.pid,
+                    Pkt::Subscribe(x) => Some(x.pid),
+                    Pkt::Unsubscribe(x) => Some(x.pid),
+                    _ => None,
+                };
+                if let Some(pid) = pid {
+                    if pid == 0 {
+                        viol(v, "C06", format!("C06/zero-id/{role}"), format!("{} written with packet id 0", pkt.brief()), e.seq);
+                        return;
+                    }
+                    if !outstanding.insert(pid) {
+                        viol(v, "C06", format!("C06/id-reused-while-outstanding/{role}/{}", pkt.name()), format!("{} reuses id {pid} before the peer acknowledged the earlier exchange", pkt.brief()), e.seq);
+                        return;
+                    }
+                    if pid < max_pid && max_pid > 60_000 {
+                        wrapped = true;
+                    }
+                    max_pid = max_pid.max(pid);
+                    if let Some(op) = op_of_packet(pkt) {
+                        pid_of_op.insert(op, pid);
+                    }
+                }
+            }
+            Ev::PeerSend { conn: 0, pkt: Some(pkt), .. } => match pkt {
+                Pkt::PubAck(a) | Pkt::PubComp(a) => {
+                    outstanding.remove(&a.pid);
+                }
+                Pkt::SubAck(x) | Pkt::UnsubAck(x) => {
+                    outstanding.remove(&x.pid);
+                }
+                _ => {}
+            },
+            _ => {}
+        }
+    }
+    if let Some((sq, _, cls)) = ix.stops.first() {
+        viol(v, "C06", format!("C06/correct-peer-connection-ended/{role}"), format!("the peer acknowledged everything correctly and in order, yet the connection ended: {cls:?}"), *sq);
+        return;
+    }
+    for o in &ix.ops {
+        match &o.done {
+            Some((sq, OpResult::Ok(a))) if a.what == "puback" || a.what == "pubrec" => {
+                if let Some(w) = pid_of_op.get(&(o.sender, o.op))
+                    && a.pid != 0
+                    && a.pid != *w
+                {
+                    viol(v, "C06", format!("C06/completed-with-foreign-ack/{role}"), format!("sender {} op {} was written with id {w} and completed with the acknowledgement of id {}", o.sender, o.op, a.pid), *sq);
+                    return;
+                }
+            }
+            Some((sq, OpResult::Err(e))) => {
+                viol(v, "C06", format!("C06/correct-peer-send-failed/{role}"), format!("sender {} op {} ({}) returned {e}", o.sender, o.op, o.brief), *sq);
+                return;
+            }
+            None if ix.healthy_settled(0) => {
+                viol(v, "C06", format!("C06/correct-peer-send-never-completed/{role}/long"), format!("sender {} op {} ({}) started at step {} and never completed", o.sender, o.op, o.brief, o.start), ix.last_seq);
+                return;
+            }
+            _ => {}
+        }
+    }
+    let _ = wrapped;
+}
+
 pub fn check_c14(ix: &Ix<'_>, v: &mut Vec<Violation>) {
     if ix.fault("ack_deviation") > 0 {
         // the statement is about correct peers; deviating acknowledgements belong to C06
@@ -2900,6 +2986,7 @@ pub fn check_all(out: &RunOut) -> Vec<Violation> {
             check_c15(&ix, &mut v);
             check_c07(&ix, &mut v);
         }
+        "C06L" => check_c06_long(&ix, &mut v),
         "C05" | "C06" | "C13" | "C13X" | "C14" | "C08" => {
             check_c05(&ix, &mut v);
             check_c06(&ix, &mut v);
